@@ -117,7 +117,11 @@ class bspline(object):
             else:
                 raise ValueError('No information for bkpts.')
         imin = bkpt.argmin()
-        imax = bkpt.argmax()
+        #
+        # Of several equal highest breakpoints patch the last one, so that
+        # a sorted breakpoint vector stays sorted.
+        #
+        imax = bkpt.size - 1 - bkpt[::-1].argmax()
         if x.min() < bkpt[imin]:
             warn('Lowest breakpoint does not cover lowest x value: changing.',
                  PydlutilsUserWarning)
